@@ -663,6 +663,45 @@ func c08Config(rep *verifkit.Report, rng *rand.Rand, up *sysUpstream, ci int) {
 			}
 		}
 	}
+	// After a restart the entries are read from the files only; those whose
+	// name or client is ignored now must still not be returned.
+	if ci%2 == 0 {
+		if in2, rerr := sysRestart(in, sysConfOpts{}); rerr != nil {
+			rep.Inconcl("restart for the read-time check: " + rerr.Error())
+		} else {
+			var b5 []byte
+			for w := 0; w < 200; w++ {
+				st, b, e := in2.API("GET", "/control/querylog?limit=100000", nil)
+				if e == nil && st == 200 {
+					b5 = b
+
+					break
+				}
+				time.Sleep(25 * time.Millisecond)
+			}
+			in2.Kill()
+			afterRestart := strings.ToLower(string(b5))
+			rep.Class("read_time_checks_after_restart")
+			returned := 0
+			for _, q := range qs {
+				label := strings.ToLower(q.Unique) + "."
+				if strings.HasPrefix(q.Unique, "plain-qlign-") || !strings.Contains(afterRestart, label) {
+					continue
+				}
+				returned++
+				lower := strings.ToLower(q.Name)
+				switch {
+				case strings.Contains(lower, ".plain.verif.example"), !q.Logged:
+					rep.Violate("now-ignored-name-still-returned:after-restart", "after a restart the log API returns an entry whose name is on the ignore list now (or that must never have been logged)",
+						map[string]any{"configuration": view, "query": q, "ignored_now": lateIgnored})
+				case apiLogClientLate != "" && q == lateOwned:
+					rep.Violate("now-ignored-client-still-returned:after-restart", "after a restart the log API returns an entry of a client that is flagged ignore_querylog now",
+						map[string]any{"configuration": view, "query": q})
+				}
+			}
+			rep.EventN("entries_returned_after_restart", returned)
+		}
+	}
 	rep.EventN("log_api_bytes", len(apiLog))
 	rep.EventN("log_file_bytes", len(fileLog))
 	rep.EventN("stats_db_bytes", len(statsDB))
